@@ -222,9 +222,18 @@ func (r *Runner) modelOut(op *Op, m any) any {
 }
 
 // RunCases evaluates implementation and model on every case and records disagreements.
+// refreshNow: cases that depend on the wall clock carry "now_ns"; it is set to the current
+// time right before both sides are evaluated (also on shrinking and replay).
+func refreshNow(args map[string]any) {
+	if _, ok := args["now_ns"]; ok {
+		args["now_ns"] = time.Now().UnixNano()
+	}
+}
+
 func (r *Runner) RunCases(cases []Case) {
 	reqs := make([]map[string]any, len(cases))
 	for i, c := range cases {
+		refreshNow(c.Args)
 		reqs[i] = map[string]any{"op": c.Op, "args": c.Args, "quirks": r.Quirks}
 	}
 	outs, err := r.Drv.AskBatch(reqs)
@@ -263,6 +272,7 @@ func short(s string) string {
 
 func (r *Runner) disagrees(opn string, args map[string]any) (bool, any, any) {
 	op := r.Ops[opn]
+	refreshNow(args)
 	ms, err := r.Drv.AskBatch([]map[string]any{{"op": opn, "args": args, "quirks": r.Quirks}})
 	var m any
 	if err == nil {
